@@ -125,6 +125,18 @@ CHECKS = {
         technique="TLA+ order model (TLC exhaustive) + TLC-enumerated inputs replayed on the code + TLC trace monitor",
         design_ref="DESIGN.md section 5 C10",
     ),
+    "C11": dict(
+        level="model_checking",
+        text="Cascade.tla transcribes the decision cascade of Writer.WriteRowGroup and states the requirement "
+             "Allowed(path, src, dst); TLC evaluates it over all 55 296 source x destination vectors (vectors where the "
+             "transcription is not allowed are decided on the code). A stratified sample of vectors is realised with six "
+             "kinds of source row groups and written with the fast paths on and off (hook); CascadeMon.tla compares rows "
+             "and every observable setting with the row path's output and checks the row-group limit.",
+        note="Settings summarised from the first output row group; segment packing of split merges and range views are "
+             "not driven; one known finding (page-header statistics on the copy path) is listed in known_findings.json.",
+        technique="TLA+ decision-table model (TLC exhaustive) + stratified replay on the code against the row-path reference + TLC trace monitor",
+        design_ref="DESIGN.md section 5 C11",
+    ),
     "C13": dict(
         level="fault_enumeration",
         text="Corrupt.tla models which load routine brings a page into memory (readPage in the stream vs the lazy "
